@@ -43,7 +43,7 @@ def jobs(tier, seed):
                         continue
                     js.append(Job(f"C11/optimize/{n}/{mode}/{mu_given}/{start_given}", "contracts.C11:job_optimize",
                                   dict(n=n, mode=mode, mu_given=mu_given, start_given=start_given, seed=seed, timeout_s=t),
-                                  timeout_s=(240.0 if tier == "quick" else 900.0), weight=float(n)))
+                                  timeout_s=(900.0 if tier == "quick" else 2400.0), weight=float(n)))
     from .C02 import e2_jobs
     js += e2_jobs("C11", ["contracts.C11_e2:LossMinimizationWiring", "contracts.C11_e2:LossValueAndGradient", "contracts.C11_e2:EntropyLossValueAndGradient",
                           "contracts.C11_e2:ProjectionInstalled"], tier, seed)
